@@ -28,6 +28,7 @@ NUM = 'dadi.Numerics'
 
 
 from sa.pattern import has, flat
+from sa import miniexec as mx
 
 
 def sa_get(d, key):
@@ -60,6 +61,210 @@ def norm_site(rep, m, fn, what, expr, label):
 
 def returns(fn):
     return [n for n in own_nodes(fn) if isinstance(n, ast.Return) and n.value is not None]
+
+
+def partitions_by_value(rep, prog, m):
+    """partitions_and_probabilities by what it returns, in the six worlds (partition type x F zero / non-zero, n_sequenced = 4):
+    `cached_part(k, n)` is summarised as a list of opaque partitions (one for k = 0, three otherwise - the single-element case has its
+    own arm in the code), the weights and the normalisation are evaluated exactly (weights are atoms after their arguments have been
+    checked), so loops, comprehensions, temporaries and the special case of one-element lists are all the same to the rule."""
+    fn = prog.func(LP, 'partitions_and_probabilities')
+    rep.saw_function(m.rel + ':' + fn.name)
+    N = 4
+    calls = []
+
+    def hook(nm, args, kwargs):
+        last = nm.split('.')[-1]
+        if last == 'cached_part' and len(args) == 2 and not kwargs:
+            k = args[0]
+            calls.append((k, args[1]))
+            kk = k if isinstance(k, int) else mx.show(k)
+            return [mx.Sym('P[%s][%d]' % (kk, j)) for j in range(1 if k == 0 else 3)]
+        if last == 'arange' and len(args) == 1 and isinstance(args[0], int):
+            return list(range(args[0]))
+        return NotImplemented
+
+    class NotRec(Exception):
+        pass
+
+    def count_of(v):
+        """(partition text, j) for P.count(j)"""
+        rec = mx.method_call(v, 'count')
+        if rec is not None and isinstance(rec, mx.Sym) and rec.struct is None and rec.text.startswith('P[') and len(v.struct[2]) == 1 and isinstance(v.struct[2][0], int):
+            return rec.text, v.struct[2][0]
+        return None
+
+    def scalar(v):
+        if isinstance(v, bool):
+            raise NotRec('boolean')
+        if isinstance(v, (int, float)):
+            return Rat.const(Fraction(v).limit_denominator(10 ** 9))
+        if isinstance(v, mx.Sym) and v.struct:
+            st = v.struct
+            if st[0] == 'binop' and st[1] == '**' and st[2] == 2:
+                c = count_of(st[3])
+                if c is not None:
+                    return Rat.atom('POW2[%s.count(%d)]' % c)
+            if st[0] == 'binop' and st[1] in ('+', '-', '*', '/'):
+                a_, b_ = scalar(st[2]), scalar(st[3])
+                return a_ + b_ if st[1] == '+' else a_ - b_ if st[1] == '-' else a_ * b_ if st[1] == '*' else a_ / b_
+            e_ = mx.call_of(v, 'exp')
+            if e_ is not None and len(e_[0]) == 1:
+                ml = mx.call_of(e_[0][0], 'multinomln')
+                if ml is not None and len(ml[0]) == 1 and isinstance(ml[0][0], (list, tuple)):
+                    cs = [count_of(x) for x in ml[0][0]]
+                    if all(c is not None for c in cs) and len({c[0] for c in cs}) == 1:
+                        return Rat.atom('MULTINOM[%s|%s]' % (cs[0][0], ','.join(str(c[1]) for c in sorted(cs, key=lambda c: c[1]))))
+            for other in ('max', 'min', 'mean', 'prod', 'amax', 'amin', 'median', 'len', 'size'):
+                oc = mx.call_of(v, other)
+                if oc is not None and len(oc[0]) == 1:
+                    # a reduction that is not the sum: an opaque number (the comparison with the reference then fails)
+                    return Rat.atom('%s[%s]' % (other.upper(), '+'.join(sorted(x.canon() for x in vector(oc[0][0])))[:200]))
+            sm = mx.call_of(v, 'sum') or mx.call_of(v, 'fsum') or (mx.call_of(v, 'reduce') if isinstance(v, mx.Sym) and v.struct and v.struct[0] == 'call' and v.struct[1].endswith('add.reduce') else None)
+            if sm is not None and len(sm[0]) == 1 and not sm[1]:
+                tot = Rat.const(0)
+                for x in vector(sm[0][0]):
+                    tot = tot + x
+                return tot
+            rec = mx.method_call(v, 'sum')
+            if rec is not None and not v.struct[2]:
+                tot = Rat.const(0)
+                for x in vector(rec):
+                    tot = tot + x
+                return tot
+            if st[0] == 'index' and isinstance(st[2], int):
+                vec = vector(st[1])
+                if -len(vec) <= st[2] < len(vec):
+                    return vec[st[2]]
+        raise NotRec('value %s' % mx.show(v)[:60])
+
+    def vector(v):
+        """list of Rat for an array-valued expression"""
+        if isinstance(v, (list, tuple)):
+            return [scalar(x) for x in v]
+        if isinstance(v, mx.Sym) and v.struct:
+            st = v.struct
+            for nm_ in ('array', 'asarray', 'asfarray', 'float64'):
+                c = mx.call_of(v, nm_)
+                if c is not None and c[0]:
+                    return vector(c[0][0])
+            if st[0] == 'binop' and st[1] in ('+', '-', '*', '/'):
+                def side(x):
+                    try:
+                        return vector(x)
+                    except NotRec:
+                        return [scalar(x)]
+                a_, b_ = side(st[2]), side(st[3])
+                n_ = max(len(a_), len(b_))
+                if len(a_) not in (1, n_) or len(b_) not in (1, n_):
+                    raise NotRec('shapes %d and %d' % (len(a_), len(b_)))
+                a_ = a_ * n_ if len(a_) == 1 else a_
+                b_ = b_ * n_ if len(b_) == 1 else b_
+                f = {'+': lambda x, y: x + y, '-': lambda x, y: x - y, '*': lambda x, y: x * y, '/': lambda x, y: x / y}[st[1]]
+                return [f(x, y) for x, y in zip(a_, b_)]
+        raise NotRec('array %s' % mx.show(v)[:60])
+
+    def weight(ptext):
+        return Rat.atom('MULTINOM[%s|0,1,2]' % ptext) * Rat.atom('POW2[%s.count(1)]' % ptext)
+
+    def expected(parts):
+        ws = [weight(mx.show(p_)) for p_ in parts]
+        tot = Rat.const(0)
+        for w in ws:
+            tot = tot + w
+        return [w / tot for w in ws]
+    res = {'weights': [], 'af': [], 'geno': [], 'enum': [], 'disp': []}
+    unrec = []
+    known = None
+    try:
+        from sa import alpha as _alpha
+        known = _alpha.load_table().get('__params__', {}).get(m.rel)
+        known = set(known) if known is not None else None
+    except Exception:
+        known = None
+    for ptype in ('allele_frequency', 'genotype', 'neither'):
+        for Fx in (0, 0.25):
+            del calls[:]
+            it = mx.Interp(prog, m, call_hook=hook, symbolic_loops=True, known_functions=known)
+            try:
+                paths = it.run(fn, {'n_sequenced': N, 'partition_type': ptype, 'Fx': Fx, 'allele_frequency': mx.Sym('af')})
+            except mx.Undecidable as e:
+                unrec.append('%s, F=%s: %s' % (ptype, Fx, e))
+                continue
+            tag = '%s, F %s 0' % (ptype, '==' if Fx == 0 else '!=')
+            if len(paths) != 1:
+                unrec.append('%s: %d paths' % (tag, len(paths)))
+                continue
+            outcome = paths[0][0]
+            if ptype == 'neither':
+                if outcome != ('raise', 'ValueError'):
+                    res['disp'].append('%s: an unknown partition type %s' % (tag, 'returns' if outcome[0] == 'return' else 'raises ' + str(outcome[1])))
+                continue
+            if outcome[0] != 'return' or not isinstance(outcome[1], tuple) or len(outcome[1]) != 2:
+                res['disp'].append('%s: ends with %s' % (tag, outcome[0] if outcome[0] != 'return' else mx.show(outcome[1])[:40]))
+                continue
+            parts, probs = outcome[1]
+            half = [c for c in calls if not (c[1] == N / 2 or c[1] == N // 2)]
+            if half:
+                res['enum'].append('%s: partitions over %s individuals' % (tag, mx.show(half[0][1])))
+            try:
+                if ptype == 'allele_frequency':
+                    if not (len(calls) == 1 and mx.show(calls[0][0]) == 'af' and isinstance(parts, list) and [mx.show(x) for x in parts] == ['P[af][%d]' % j for j in range(3)]):
+                        res['enum'].append('%s: partitions returned are %s' % (tag, mx.show(parts)[:60]))
+                        continue
+                    groups = [(parts, probs)]
+                else:
+                    ks = [c[0] for c in calls]
+                    want = [['P[%d][%d]' % (k, j) for j in range(1 if k == 0 else 3)] for k in range(N + 1)]
+                    if not (ks == list(range(N + 1)) and isinstance(parts, list) and [[mx.show(x) for x in g] for g in parts] == want):
+                        res['enum'].append('%s: allele counts %s, partitions returned %s' % (tag, [mx.show(k) for k in ks], mx.show(parts)[:60]))
+                        continue
+                    if not isinstance(probs, (list, tuple)) or len(probs) != len(parts):
+                        if isinstance(probs, mx.Sym):
+                            c = mx.call_of(probs, 'array') or mx.call_of(probs, 'asarray')
+                            probs = c[0][0] if c is not None and c[0] and isinstance(c[0][0], (list, tuple)) else probs
+                    if not isinstance(probs, (list, tuple)) or len(probs) != len(parts):
+                        raise NotRec('probabilities %s' % mx.show(probs)[:60])
+                    groups = list(zip(parts, probs))
+                for g_parts, g_probs in groups:
+                    if Fx == 0:
+                        got = vector(g_probs)
+                        ref = expected(g_parts)
+                        if len(got) != len(ref) or not all(x.equals(y) for x, y in zip(got, ref)):
+                            # which part is wrong: the weights or the normalisation
+                            ats = set()
+                            for x in got:
+                                ats |= set(x.atoms())
+                            want_ats = set()
+                            for y in ref:
+                                want_ats |= set(y.atoms())
+                            key = 'weights' if ats != want_ats else ('af' if ptype == 'allele_frequency' else 'geno')
+                            res[key].append('%s: probabilities of %s are %s' % (tag, mx.show(g_parts)[:40], '; '.join(x.canon()[:90] for x in got[:2])))
+                    else:
+                        c = mx.call_of(g_probs, 'part_inbreeding_probability') if isinstance(g_probs, mx.Sym) else None
+                        if c is None or len(c[0]) != 2 or mx.show(c[0][0]) != mx.show(g_parts) or c[0][1] != Fx or c[1]:
+                            res['disp'].append('%s: probabilities of %s are %s' % (tag, mx.show(g_parts)[:40], mx.show(g_probs)[:70]))
+            except NotRec as e:
+                unrec.append('%s: %s' % (tag, e))
+            except AlgebraError as e:
+                unrec.append('%s: %s' % (tag, e))
+
+    def ob(rule, construct, keys, holds, what):
+        bad = [x for k in keys for x in res[k]]
+        if bad:
+            rep.ob(rule, construct, False, '; '.join(bad)[:400], m.rel, fn.lineno, what=what)
+        elif unrec:
+            rep.ob(rule, construct, False, 'not recognised: ' + '; '.join(unrec)[:300], m.rel, fn.lineno, what=what)
+        else:
+            rep.ob(rule, construct, True, holds, m.rel, fn.lineno, what=what)
+    ob('R-TWIN', 'partitions_and_probabilities weights', ['weights'], 'both arms weight a partition by multinomial(n0,n1,n2) * 2^n1',
+       'number of genotype assignments times the two phases of each heterozygote, identically in both partition types')
+    ob('R-NORM', 'partitions_and_probabilities allele_frequency', ['af'], 'weights divided by their sum', 'allele_frequency arm: weights divided by their sum')
+    ob('R-NORM', 'partitions_and_probabilities genotype', ['geno'], 'each list of weights is divided by its own sum (also when it has one element)', 'genotype arm: per allele count, weights divided by their sum')
+    ob('R-IDX', 'partitions_and_probabilities enumeration', ['enum'], 'partitions of the allele count over n_sequenced/2 diploid individuals; genotype arm covers counts 0..n_sequenced in order',
+       'all allele counts 0..n, n/2 individuals with 0/1/2 copies')
+    ob('R-EXH', 'partitions_and_probabilities F dispatch', ['disp'], 'Fx == 0 -> multinomial weights, otherwise beta-binomial weights of the same partitions, in both partition types; other types raise',
+       'every (partition type, F) combination assigns the probabilities')
 
 
 def check_partitions(rep, prog):
@@ -147,55 +352,7 @@ def check_partitions(rep, prog):
     rep.ob('R-DOM', 'part_inbreeding_probability monomorphic', okm, detm or 'all-reference / all-alternative partitions get weight 1 (p = 0 or 1 has no beta-binomial)', m.rel, fn.lineno,
            what='the degenerate allele frequencies are handled without evaluating the beta-binomial')
     # ---- partitions_and_probabilities ------------------------------------------------------------------------------------
-    fn = prog.func(LP, 'partitions_and_probabilities')
-    rep.saw_function(m.rel + ':' + fn.name)
-    # the weight of one partition, written with any name for the partition: found in the Fx == 0 arm of both partition types
-    def weight_elts(node):
-        out = []
-        for c in ast.walk(node):
-            if isinstance(c, (ast.ListComp, ast.GeneratorExp)) and len(c.generators) == 1 and isinstance(c.generators[0].target, ast.Name):
-                v = c.generators[0].target.id
-                if ast.unparse(c.elt) == "numpy.exp(dadi.Numerics.multinomln([{0}.count(0), {0}.count(1), {0}.count(2)])) * 2 ** {0}.count(1)".format(v):
-                    out.append(c)
-        return out
-    f0 = [n for n in own_nodes(fn) if isinstance(n, ast.If) and ast.unparse(n.test) in ('Fx == 0', '0 == Fx', 'not Fx')]
-    okw = len(f0) == 2 and all(any(weight_elts(x) for x in n.body) for n in f0)
-    rep.ob('R-TWIN', 'partitions_and_probabilities weights', okw, 'both arms weight a partition by multinomial(n0,n1,n2) * 2^n1', m.rel, fn.lineno,
-           what='number of genotype assignments times the two phases of each heterozygote, identically in both partition types')
-    probs = [n for n in own_nodes(fn) if isinstance(n, ast.Assign) and ast.unparse(n.targets[0]) == 'partition_probabilities']
-    af = [n for n in probs if isinstance(n.value, ast.BinOp)]
-    norm_site(rep, m, fn, 'allele_frequency arm: weights divided by their sum', af[0].value if len(af) == 1 else None, 'partitions_and_probabilities allele_frequency')
-    t = ast.unparse(fn)
-    okg = has(t, 'partition_ways_sum = [[numpy.sum(part)] if len(part) > 1 else part for part in partition_ways]') and \
-        has(t, 'partition_probabilities = [numpy.array(pw) / numpy.array(pwb) for (pw, pwb) in zip(partition_ways, partition_ways_sum)]')
-    if not okg:
-        # the other way of writing it: one comprehension over the allele counts whose element is  W / sum(W)  with W the weights of that count
-        for n in probs:
-            v = n.value
-            if isinstance(v, ast.ListComp) and len(v.generators) == 1 and not v.generators[0].ifs and ast.unparse(v.generators[0].iter) == 'partitions' \
-                    and isinstance(v.elt, ast.BinOp) and isinstance(v.elt.op, ast.Div) and weight_elts(v.elt.left):
-                num, d = ast.unparse(v.elt.left), v.elt.right
-                if isinstance(d, ast.Call) and (((dotted(d.func) or '') in ('sum', 'numpy.sum', 'np.sum') and len(d.args) == 1 and not d.keywords and ast.unparse(d.args[0]) == num) or
-                                                (isinstance(d.func, ast.Attribute) and d.func.attr == 'sum' and not d.args and not d.keywords and ast.unparse(d.func.value) == num)):
-                    wl = weight_elts(v.elt.left)[0]
-                    okg = ast.unparse(wl.generators[0].iter) == ast.unparse(v.generators[0].target)
-    rep.ob('R-NORM', 'partitions_and_probabilities genotype', okg, 'each list of weights is divided by its own sum (or by itself when it has one element)', m.rel, fn.lineno,
-           what='genotype arm: per allele count, weights divided by their sum')
-    okc = has(t, "partitions = dadi.Numerics.cached_part(allele_frequency, n_sequenced / 2)") and \
-        has(t, "partitions = [dadi.Numerics.cached_part(allele_count, n_sequenced / 2) for allele_count in allele_counts]") and has(t, 'allele_counts = numpy.arange(n_sequenced + 1)')
-    rep.ob('R-IDX', 'partitions_and_probabilities enumeration', okc, 'partitions of the allele count over n_sequenced/2 diploid individuals; genotype arm covers counts 0..n_sequenced', m.rel, fn.lineno,
-           what='all allele counts 0..n, n/2 individuals with 0/1/2 copies')
-    inb = [n for n in probs if 'part_inbreeding_probability' in ast.unparse(n.value)]
-    def inb_form(v):
-        if ast.unparse(v) == 'part_inbreeding_probability(partitions, Fx)':
-            return 'whole'
-        if isinstance(v, ast.ListComp) and len(v.generators) == 1 and not v.generators[0].ifs and isinstance(v.generators[0].target, ast.Name) and ast.unparse(v.generators[0].iter) == 'partitions' \
-                and ast.unparse(v.elt) == 'part_inbreeding_probability(%s, Fx)' % v.generators[0].target.id:
-            return 'each'
-        return '?'
-    oki = sorted(inb_form(n.value) for n in inb) == ['each', 'whole'] and len(f0) == 2 and len(probs) == 4 and all(any(x is n or any(y is n for y in ast.walk(x)) for f_ in f0 for x in f_.orelse) for n in inb)
-    rep.ob('R-EXH', 'partitions_and_probabilities F dispatch', oki, 'Fx == 0 -> multinomial weights, otherwise beta-binomial weights, in both partition types', m.rel, fn.lineno,
-           what='every (partition type, F) combination assigns the probabilities')
+    partitions_by_value(rep, prog, m)
     # ---- Numerics.part -------------------------------------------------------------------------------------------------------
     pf = prog.func(NUM, 'part')
     tp = ast.unparse(pf)
